@@ -40,7 +40,7 @@ func Spec() *mon.Spec {
 func gen(g *mon.Gen) {
 	rng := g.Rng
 	for _, fc := range specref.FCs {
-		for k := 0; k < g.Pick(40, 800); k++ {
+		for k := 0; k < g.Pick(120, 800); k++ {
 			g.Emit(&Case{Kind: "prefix", FC: int(fc), Seed: rng.Int63(), N: k})
 		}
 	}
